@@ -47,7 +47,7 @@ PROPS = {
                     'consequence for whole data-movement programs (composition over compile)'],
     ),
     'C02': dict(
-        units=['panic', 'branches'],
+        units=['panic', 'branches', 'access'],
         deps=[('builder', 'C04')],
         kani=[dict(name='c02_unsigned_as_usize_bits', fn='circuit::unsigned_as_usize_bits', label='complete-over-u64',
                    bound='all u64 values; the 32-iteration loop fully unrolled (unwinding assertions on)')],
@@ -67,8 +67,10 @@ PROPS = {
               'from the record as it was after the condition, and merges so that the record is wire for wire that of the branch taken; the && '
               'and || arms leave the record after x wherever x alone decides (the short-circuited operand is silent); the Match arm compiles '
               'every clause from the record before the match and the first clause whose pattern matches decides the record (and the result '
-              'wires); each arm re-establishes the induction hypothesis. Which operations call push_panic_if with which condition is proved '
-              'for the arithmetic arms under C03; blocks, let / assignment, function calls, array access and for / for-join loops are outside '
+              'wires); each arm re-establishes the induction hypothesis. Panic sources: overflow, shift amount and division by zero are proved at '
+              'their operator arms under C03; array read access (unit access, the ArrayAccess arm lifted from its mux tree on): an OutOfBounds '
+              'panic is recorded exactly when the index value is not below the number of elements. Blocks, let / assignment (incl. the two '
+              'out-of-bounds checks of array element assignment), function calls and for / for-join loops are outside '
               'every contract; a bounded differential search over operation trees and source programs on the real code stands in for them '
               'and for build/EvalPanic layout (labelled bounded).',
         note='Trusted: core builder contracts are proved in unit builder (run as part of this check); vstd specs of HashSet/arrays; '
@@ -77,9 +79,10 @@ PROPS = {
              'Unit branches: TExpr / TPat / TypedProgram / Env are opaque types; TExpr::compile and TPat::compile are external_body with the '
              'induction hypothesis as contract (structural induction is not closed by Verus over the real recursive function); mux_envs, Env::clone / '
              'push / pop are external_body (they do not touch the record); derived Clone of CachedPanicResult returns an equal value (external_body); '
-             'ghost out-parameters are added to the lifted arms. Unverified: for / for-join loops, blocks, calls, array access.',
+             'ghost out-parameters are added to the lifted arms. Unit access: unsigned_to_bits is external_body (layout proved by the C09 Kani harness); num_elems < 2^index_bits, '
+             'elem_bits >= 1 for a non-empty array and no usize overflow of the mux-tree counters are preconditions; R5d (from=), R21. Unverified: for / for-join loops, blocks, calls.',
         title='panic record: panic iff earlier or cond; never overwritten; first failure wins; untaken branch silent at merges',
-        unverified=['which operations call push_panic_if with which condition (C03 for the operators; array access and casts otherwise)',
+        unverified=['array element assignment (two OutOfBounds checks inside TypedStmt::compile): bounded differential only; the element selected by the mux tree of an array read (value, not panic)',
                     'for / for-join loop lowering (compile_bitonic_merge), blocks, let / assignment statements, function calls: bounded differential only',
                     'the induction over the whole of TypedExpr::compile is not closed mechanically (each branching arm is proved against the hypothesis)',
                     'EvalPanic::parse and build (panic record wiring to outputs): bounded differential search only'],
